@@ -406,11 +406,17 @@ impl FseTable {
         // Use fixed TF_SHIFT constant for optimal performance, regardless of table_log
         const TF_SHIFT: u8 = 12;
         let table_size = 1usize << TF_SHIFT;  // Always use TF_SHIFT for table size
-        let total_freq: u32 = frequencies.iter().sum();
+        // the frequencies may come from a compressed stream (FseDecoder::decompress_single)
+        let total: u64 = frequencies.iter().map(|&f| f as u64).sum();
         
-        if total_freq == 0 {
+        if total == 0 {
             return Err(ZiporaError::invalid_data("Total frequency is zero"));
         }
+        // FastDivision::new needs 32 + bit_length(total) < 64
+        if total > (u32::MAX >> 1) as u64 {
+            return Err(ZiporaError::invalid_data("Total frequency too large"));
+        }
+        let total_freq = total as u32;
         
         // Use entropy-preserving normalization if enabled
         let normalized_freqs = if config.entropy_optimization {
@@ -1268,8 +1274,8 @@ impl FseDecoder {
         let compressed_data = &data[pos..state_start];
         let mut byte_pos = compressed_data.len(); // Start from the end for rANS
         
-        // Decode symbols using advanced approach
-        let mut output = Vec::with_capacity(original_size);
+        // Decode symbols using advanced approach (`original_size` is untrusted: capacity hint only)
+        let mut output = Vec::with_capacity(original_size.min(1 << 20));
         
         for i in 0..original_size {
             // Decode symbol first (optimal order for performance)
